@@ -8,6 +8,7 @@ import (
 	"os/exec"
 	"path/filepath"
 	"runtime"
+	"runtime/debug"
 	"runtime/pprof"
 	"sort"
 	"strconv"
@@ -142,6 +143,7 @@ func envInt(name string, def int) int {
 }
 
 func main() {
+	debug.SetGCPercent(400)
 	if len(os.Args) < 2 {
 		fmt.Println("usage: verif check <ID> [--tier quick|thorough] | verif run <harness> | verif list")
 		os.Exit(2)
@@ -237,6 +239,10 @@ func runCheck(id, tier string, verbose bool, only string, workers int, noval boo
 		if h.Cfg != nil {
 			h.Cfg(&cfg, tierN)
 		}
+		if tier == "thorough" {
+			cfg.MaxWallS = 3 * cfg.MaxWallS
+		}
+		cfg.MaxWallS = envInt("VERIF_MAXWALL", cfg.MaxWallS)
 		nSamples := 4
 		if tier == "thorough" {
 			nSamples = 12
@@ -437,7 +443,7 @@ func sanitize(s string) string {
 }
 
 func writeEvidence(spec *CheckSpec, tier string, seed int, results []*HarnessResult, samples []sampleOut, wall float64, nviol int, problems []string, stats *SolverStats, validated int, g *Engine) {
-	paths, queries, assertsOK := 0, 0, 0
+	paths, queries, assertsOK, decisions := 0, 0, 0, 0
 	ends := map[string]int{}
 	var harnessSumm []map[string]interface{}
 	funcs := map[string]FuncInfo{}
@@ -445,6 +451,7 @@ func writeEvidence(spec *CheckSpec, tier string, seed int, results []*HarnessRes
 	for _, r := range results {
 		paths += r.Paths
 		queries += r.Queries
+		decisions += r.Decisions
 		assertsOK += r.AssertsOK
 		for k, v := range r.Ends {
 			ends[k] += v
@@ -463,7 +470,7 @@ func writeEvidence(spec *CheckSpec, tier string, seed int, results []*HarnessRes
 		harnessSumm = append(harnessSumm, map[string]interface{}{
 			"harness": r.Name, "lemma": hs.Lemma, "bounds": hs.Bounds, "paths": r.Paths, "path_ends": r.Ends,
 			"assertions_discharged_unsat_or_concrete": r.AssertsOK, "violated_labels": r.ViolCount, "solver_queries": r.Queries,
-			"ssa_instructions_executed": r.Steps, "reach_witnesses": reached, "wall_s": r.Wall, "sample_decision_vectors": r.SamplePaths,
+			"ssa_instructions_executed": r.Steps, "path_decisions": r.Decisions, "branches_decided_by_interval_reasoning": r.RangeDecided, "reach_witnesses": reached, "wall_s": r.Wall, "sample_decision_vectors": r.SamplePaths,
 		})
 		for _, fi := range g.funcInfos(r.Funcs, true) {
 			funcs[fi.Name] = fi
@@ -488,11 +495,13 @@ func writeEvidence(spec *CheckSpec, tier string, seed int, results []*HarnessRes
 	}
 	cov := map[string]interface{}{
 		"states":                        max(paths, 0),
-		"transitions":                   max(queries, 0),
+		"transitions":                   queries + decisions,
+		"solver_queries":                queries,
+		"path_decisions":                decisions,
 		"traces_validated_against_impl": validated,
 		"samples":                       samples,
 		"exhaustive":                    false,
-		"explanation":                   "states = symbolic paths through the real SSA within the stated bounds; transitions = SMT queries discharged (feasibility + assertions); every assertion is decided for all values on its path by the solver",
+		"explanation":                   "states = symbolic paths through the real SSA within the stated bounds; transitions = decisions taken along those paths (symbolic branches, harness case splits) + SMT queries discharged (feasibility + assertions); an assertion is decided for all values on its path by the solver, or by term simplification/constant folding when the path leaves it concrete",
 		"harnesses":                     harnessSumm,
 		"path_ends":                     ends,
 		"assertions_discharged":         assertsOK,
